@@ -29,8 +29,8 @@ def workdir(prefix):
 def _cfg(scn):
     return {
         'buses': [{'name': b['name'], 'parallel': bool(b.get('parallel')), 'maxhist': int(b.get('maxhist') or 0), 'wal': bool(b.get('wal'))} for b in scn['buses']],
-        'handlers': [{'id': h['id'], 'bus': h['bus'], 'pat': h['pat'], 'kind': h.get('kind', 'async'), 'to': h.get('to', '')}
-                     for h in scn['handlers']],
+        'handlers': [dict({'id': h['id'], 'bus': h['bus'], 'pat': h['pat'], 'kind': h.get('kind', 'async'), 'to': h.get('to', '')},
+                          **({'late': True} if h.get('late') else {})) for h in scn['handlers']],
     }
 
 
@@ -58,6 +58,7 @@ _KEEP = {
     'StopB': ['d', 'b', 'tmo', 'running'],
     'StopE': ['d', 'b', 'exc'],
     'CancelRL': ['d', 'b', 'had'],
+    'Reg': ['d', 'x', 'b', 'h', 'pat'],
     'ExpB': ['d', 'x', 'b', 'ty', 'inc', 'exc', 'tmo'],
     'ExpE': ['d', 'x', 'b', 'e', 'err'],
     'ProcB': ['b', 'e', 'n'],
@@ -169,7 +170,7 @@ def validate_obs(traces, jobs=8, batch=150, keep_dir=None):
 # conformance: TraceImpl (the recorded trace replayed through the actions of Bubus.tla)
 # ---------------------------------------------------------------------------------------------
 _H_OPS = {'d', 'y', 's', 'a', 'rb', 'raise', 'ret', 'g', 'logop'}
-_D_OPS = {'d', 'a', 'y', 's', 'idle', 'g', 'acc', 'stop', 'crl', 'expect'}
+_D_OPS = {'d', 'a', 'y', 's', 'idle', 'g', 'acc', 'stop', 'crl', 'expect', 'on'}
 
 
 def impl_eligible(scn):
